@@ -63,7 +63,11 @@ impl EventGen for SvgElement {
 
         let (ol, mut bbox) = res?;
 
-        if let (Some(el_bbox), Some(clip_id)) = (
+        // (elements which are replaced by what they generate don't pass a clip-path
+        // on to the output, so nothing is clipped)
+        let is_output = !matches!(self.name.as_str(), "reuse" | "loop" | "for" | "if");
+        if let (true, Some(el_bbox), Some(clip_id)) = (
+            is_output,
             bbox,
             self.get_attr("clip-path")
                 .and_then(|url| extract_urlref(&url)),
